@@ -430,30 +430,37 @@ def check_separators(run, rule, f, cfg, select=None):
         # for loops with a `let mut first = true` flag
         flags = {}
         for n in walk(body):
-            if n.get("k") == "stmt_let" and n["pat"].get("k") == "bind" and n["pat"].get("mut") and n.get("init") is not None:
+            if n.get("k") == "stmt_let" and n["pat"].get("k") == "bind" and n.get("init") is not None:
                 init = H.peel_ref(n["init"])
                 if f.ty(n.get("pty")) == "bool":
-                    flags[n["pat"]["name"]] = init
+                    flags[n["pat"]["name"]] = init      # mutable or not: an immutable flag that guards a separator can never be cleared
         if flags:
-            for p0 in P.fn_paths(body):
-                for ev in p0.events:
-                    if ev["ev"] != "loop":
+            def all_loops(paths_, acc, depth=0):
+                for q in paths_:
+                    for ev in q.events:
+                        if ev["ev"] == "loop":
+                            acc.append(ev)
+                        if ev["ev"] in ("loop", "closure") and depth < 6:
+                            all_loops(ev["paths"], acc, depth + 1)
+                return acc
+            seen_nodes = set()
+            for lp in all_loops(P.fn_paths(body), []):
+                if id(lp["n"]) in seen_nodes:
+                    continue
+                seen_nodes.add(id(lp["n"]))
+                used = set()
+                for x in walk(lp["n"]):
+                    if x.get("k") == "if":
+                        fl = _flag_of(x["cond"])
+                        if fl and fl[0] in flags:
+                            used.add(fl[0])
+                for flag in used:
+                    # a flag declared inside the loop body is per-iteration state, not a list flag
+                    if any(x.get("k") == "stmt_let" and x["pat"].get("k") == "bind" and x["pat"].get("name") == flag for x in walk(lp["n"])):
                         continue
-                    lp = ev
-                    used = set()
-                    for x in walk(lp["n"]):
-                        if x.get("k") == "if":
-                            fl = _flag_of(x["cond"])
-                            if fl and fl[0] in flags:
-                                used.add(fl[0])
-                    for flag in used:
-                        key = (name, id(lp["n"]), flag)
-                        if key in _seen_loops:
-                            continue
-                        _seen_loops.add(key)
-                        _check_loop_paths(run, rule, f, cfg, name, short, "for loop", flag, [q for q in lp["paths"] if q.out != "break" or True], sinks, lp["n"].get("sp"),
-                                          new_flag=lambda p, flag=flag: _assigned_flag(p, flag))
-                        nloops += 1
+                    _check_loop_paths(run, rule, f, cfg, name, short, "for loop", flag, lp["paths"], sinks, lp["n"].get("sp"),
+                                      new_flag=lambda p, flag=flag: _assigned_flag(p, flag))
+                    nloops += 1
     return nloops
 
 
